@@ -19,6 +19,7 @@ package netpoll
 
 import (
 	"sync/atomic"
+	"unsafe"
 )
 
 // ------------------------------------------ implement FDOperator ------------------------------------------
@@ -112,6 +113,7 @@ func (c *connection) inputAck(n int) (err error) {
 	if length == n { // first start onRequest
 		needTrigger = c.onRequest()
 	}
+	vp(vpWaitSize, unsafe.Pointer(c), -1, 0)
 	if needTrigger && length >= int(atomic.LoadInt64(&c.waitReadSize)) {
 		c.triggerRead(nil)
 	}
